@@ -93,26 +93,37 @@ Definition s_pre_code : str := [60; 112; 114; 101; 62; 60; 99; 111; 100; 101].  
 Definition s_code_pre_end : str := [60; 47; 99; 111; 100; 101; 62; 60; 47; 112; 114; 101; 62; LF]. (* </code></pre>\n *)
 
 (* fence rule; TypeError when an existing class attribute is not a str (attrJoin) *)
-Definition render_fence (o : ropts) (t : token) : res (list chunk) :=
-  let info := match tinfo t with [] => [] | i => py_strip (unescape_all i) end in
-  let '(langName, langAttrs) := match info with [] => ([], []) | _ => split_first info end in
-  let highlighted : list chunk :=
-    match o_highlight o with
-    | Some hl => match hl (tcontent t) langName langAttrs with
-                 | [] => [CEsc (tcontent t)]
-                 | h => [CRaw h]
-                 end
-    | None => [CEsc (tcontent t)]
-    end in
+Definition fence_info (t : token) : str :=
+  match tinfo t with [] => [] | i => py_strip (unescape_all i) end.
+
+Definition fence_highlighted (o : ropts) (t : token) (langName langAttrs : str) : list chunk :=
+  match o_highlight o with
+  | Some hl => match hl (tcontent t) langName langAttrs with
+               | [] => [CEsc (tcontent t)]
+               | h => [CRaw h]
+               end
+  | None => [CEsc (tcontent t)]
+  end.
+
+Definition lang_name (info : str) : str := match info with [] => [] | _ => fst (split_first info) end.
+Definition lang_attrs (info : str) : str := match info with [] => [] | _ => snd (split_first info) end.
+
+Definition render_fence_core (langPrefix : str) (t : token) (info : str) (highlighted : list chunk)
+  : res (list chunk) :=
   let starts_pre := match highlighted with [CRaw h] => starts_with s_pre h | _ => false end in
   if starts_pre then Ok (highlighted ++ [CLit [LF]])
   else
     match info with
     | [] => Ok ([CLit s_pre_code] ++ render_attrs t ++ [CLit [62]] ++ highlighted ++ [CLit s_code_pre_end])
     | _ =>
-        do tmp <- attr_join (set_attrs (new_token [] [] 0) (tattrs t)) s_class (o_langPrefix o ++ langName);
+        do tmp <- attr_join (set_attrs (new_token [] [] 0) (tattrs t)) s_class (langPrefix ++ lang_name info);
         Ok ([CLit s_pre_code] ++ render_attrs tmp ++ [CLit [62]] ++ highlighted ++ [CLit s_code_pre_end])
     end.
+
+Definition render_fence_with (o : ropts) (t : token) (info : str) : res (list chunk) :=
+  render_fence_core (o_langPrefix o) t info (fence_highlighted o t (lang_name info) (lang_attrs info)).
+
+Definition render_fence (o : ropts) (t : token) : res (list chunk) := render_fence_with o t (fence_info t).
 
 Definition br (o : ropts) : str := if o_xhtml o then [60; 98; 114; 32; 47; 62; LF] else [60; 98; 114; 62; LF].
 
